@@ -728,7 +728,9 @@ package ristretto
 //@   requires m != nil
 //@   modifies m.data, gcCallbacks(onEvict)
 //@   loop 1 modifies gcCallbacks(onEvict)
+//@   loop 1 invariant [C15] #released gcCalls(onEvict) == old(gcCalls(onEvict))+rangecount
 //@   ensures [C13,C15] #empty m.data != nil && forall k uint64 :: !gcHas(m.data, k)
+//@   ensures [C15] #all-released onEvict != nil ==> gcCalls(onEvict) == old(gcCalls(onEvict))+old(gcCard(m.data))
 
 //@ func (sm *shardedMap) Clear(onEvict func(item *Item[V]))
 //@   reveal shardOf
